@@ -470,7 +470,7 @@ impl Property for C34 {
         "'or not at all' is accepted for any request; an answer to the client's own (always in-range) chunk request is required",
     ];
     const QUICK_CASES: u32 = 800_000;
-    const THOROUGH_CASES: u32 = 12_000_000;
+    const THOROUGH_CASES: u32 = 46_000_000;
 
     fn strategy(tier: Tier) -> BoxedStrategy<Case> {
         prop_oneof![
